@@ -86,12 +86,13 @@ fn main() {
     if want("bn1") {
         wei::run::<curves::Bn1>(&mut ctx);
         bn::run::<curves::Bn1>(&mut ctx);
-        extra::bn_raw_serde(&mut ctx);
+        extra::bn1_raw_serde(&mut ctx);
     }
     if want("bn2") {
         wei::run::<curves::Bn2>(&mut ctx);
         bn::run::<curves::Bn2>(&mut ctx);
         bn::run_g2_cofactor(&mut ctx);
+        extra::bn2_raw_serde(&mut ctx);
     }
     if want("k256") {
         secp::run(&mut ctx);
